@@ -354,6 +354,8 @@ def units(tier: str) -> List[Any]:
     us: List[Any] = []
     for kind in ("done", "stop", "error"):
         us.append(("startterm", kind))
+    for kind in ("final", "always-final", "fail"):
+        us.append(("stopmid", kind))
     us.append(("concstart", 2))
     us.append(("concstart", 3))
     from . import c14_preempt as PP
@@ -425,6 +427,74 @@ def run_start_terminal(kind: str) -> Dict[str, Any]:
     return res
 
 
+def run_stop_mid(kind: str) -> Dict[str, Any]:
+    """stop() is called by a TRANSITION action of a running machine, and the same macrostep then reaches a terminal
+    condition: the transition targets a top-level final state ('final'), reaches it through an eventless follow-up
+    ('always-final'), or enters a state invoking a failing service without onError ('fail', sync engine: the failure is
+    inside the macrostep).  stopped is terminal: the status stays 'stopped', no on_done / on_error hook follows the stop
+    hook, a second stop() does nothing, start() does not revive the interpreter."""
+    res = dict(states=0, transitions=0, executions=0, distinct=[], violations=[], samples=[], caps=[])
+    for engine in ENGINES:
+        is_async = engine == "async"
+        if is_async and kind == "fail":
+            continue
+        if is_async:
+            async def stopper(interp, ctx, ev, ad):
+                await interp.stop()
+        else:
+            def stopper(interp, ctx, ev, ad):
+                interp.stop()
+        states: Dict[str, Any] = {"idle": {"on": {"GO": {"target": "next", "actions": ["stopper", "tr:go"]}}},
+                                  "fin": {"type": "final"}}
+        if kind == "final":
+            states["idle"]["on"]["GO"]["target"] = "fin"
+        elif kind == "always-final":
+            states["next"] = {"always": {"target": "fin"}}
+        else:
+            states["next"] = {"invoke": {"id": "b", "src": "bad"}}
+        cfg = {"id": "m", "initial": "idle", "states": states}
+        h = Harness(cfg, with_plugin=True, threads=True, budget=2000, services={"bad": bad_service}, extra_actions={"stopper": stopper})
+        d = h.driver(engine)
+        try:
+            d.start()
+            d.settle()
+            d.send("GO")
+            d.settle()
+            status1 = d.interp.status
+            mark = h.rec.mark()
+            d.stop()
+            d.settle()
+            again = [e for e in h.rec.since(mark) if e[0] in ("STOP", "DONE", "ERR")]
+            revived = None
+            try:
+                d.start()
+                d.settle()
+                revived = d.interp.status
+            except Exception:  # noqa: BLE001  (refusing is fine)
+                revived = d.interp.status
+            log = list(h.rec.log)
+            tags = [e[0] for e in log if e[0] in ("STOP", "DONE", "ERR")]
+            res["executions"] += 1
+            res["distinct"].append(hash(("stopmid", kind, engine)))
+            bad = []
+            if status1 != "stopped":
+                bad.append(("status-left-stopped", f"status {status1} after a macrostep in which stop() ran"))
+            if "STOP" in tags and any(t in ("DONE", "ERR") for t in tags[tags.index("STOP") + 1:]):
+                bad.append(("terminal-hook-after-stop", f"hooks {tags}"))
+            if again:
+                bad.append(("second-stop-not-idempotent", f"a second stop() reported {again}"))
+            if revived == "running":
+                bad.append(("stopped-interpreter-restarted", "start() after stop() set the status to running"))
+            for clause, detail in bad:
+                res["violations"].append(dict(signature=f"C14|{clause}|{engine}|stop-mid-{kind}", clause=clause,
+                                              what=f"{engine}: {clause}: {detail}; stop() called by a transition action, macrostep then reaches {kind}", size=1,
+                                              replay=dict(engine="stopmid", kind=kind)))
+        finally:
+            d.close()
+    res["samples"].append(dict(scenario="stop() inside a macrostep that then terminates", kind=kind))
+    return res
+
+
 def run_concurrent_start(k: int) -> Dict[str, Any]:
     """async engine: k start() calls issued in the same loop iteration while the initial entry action is suspended; then
     one event.  Judged: one run loop, nothing received before the initial entry finished, the event processed once."""
@@ -487,6 +557,8 @@ def run_unit(unit):
         return run_concurrent_start(unit[1])
     if unit[0] == "startterm":
         return run_start_terminal(unit[1])
+    if unit[0] == "stopmid":
+        return run_stop_mid(unit[1])
     if unit[0] == "preempt":
         from . import c14_preempt as P
         from ..preempt import unit_result
@@ -510,6 +582,11 @@ def run_unit(unit):
 def replay(payload):
     if payload.get("engine") == "startterm":
         r = run_start_terminal(payload["kind"])
+        for v in r["violations"]:
+            print("  ", v["what"][:300])
+        return r["violations"]
+    if payload.get("engine") == "stopmid":
+        r = run_stop_mid(payload["kind"])
         for v in r["violations"]:
             print("  ", v["what"][:300])
         return r["violations"]
